@@ -27,6 +27,7 @@ type Field struct {
 	Kind     string `json:"kind"` // value | slice | map | ptr | func | chan | iface
 	Elem     string `json:"elem"` // named struct type (same package) reached through the field, if any
 	Embedded bool   `json:"embedded,omitempty"`
+	ElemRef  bool   `json:"elem_ref,omitempty"` // the elements of the slice / values of the map are themselves slices, maps or pointers
 }
 
 type TypeInfo struct {
@@ -50,10 +51,19 @@ type RangeSite struct {
 	Reason string `json:"reason"`
 }
 
+// Access: a function of the apply path that reads or writes a field declared transient (matched by field name)
+type Access struct {
+	Field string `json:"field"`
+	Func  string `json:"func"`
+	Mode  string `json:"mode"` // read | write
+}
+
 type Out struct {
-	Types  []*TypeInfo `json:"types"`
-	Ranges []RangeSite `json:"ranges"`
-	Funcs  int         `json:"reachable_funcs"`
+	Types       []*TypeInfo `json:"types"`
+	Ranges      []RangeSite `json:"ranges"`
+	Funcs       int         `json:"reachable_funcs"`
+	Access      []Access    `json:"transient_access"`
+	ConfigReads []Access    `json:"config_reads"` // x.config.F read in the apply path
 }
 
 type fn struct {
@@ -163,6 +173,25 @@ func kindOf(t ast.Expr, depth int) (kind, elem string) {
 	return "value", ""
 }
 
+// elemIsRef: for a slice or map type, is the element / value type a slice, map or pointer?
+func elemIsRef(t ast.Expr, depth int) bool {
+	switch x := t.(type) {
+	case *ast.ArrayType:
+		k, _ := kindOf(x.Elt, 0)
+		return k == "slice" || k == "map" || k == "ptr"
+	case *ast.MapType:
+		k, _ := kindOf(x.Value, 0)
+		return k == "slice" || k == "map" || k == "ptr"
+	case *ast.StarExpr:
+		return elemIsRef(x.X, depth+1)
+	case *ast.Ident:
+		if u, ok := named[x.Name]; ok && depth < 6 {
+			return elemIsRef(u, depth+1)
+		}
+	}
+	return false
+}
+
 func fieldsOf(name string) []Field {
 	st := structs[name]
 	var out []Field
@@ -181,7 +210,7 @@ func fieldsOf(name string) []Field {
 			continue
 		}
 		for _, id := range f.Names {
-			out = append(out, Field{Name: id.Name, Type: exprStr(f.Type), Kind: k, Elem: e})
+			out = append(out, Field{Name: id.Name, Type: exprStr(f.Type), Kind: k, Elem: e, ElemRef: elemIsRef(f.Type, 0)})
 		}
 	}
 	return out
@@ -404,7 +433,48 @@ func cloneDepth(rhs ast.Expr, rv string) string {
 			return "shallow"
 		}
 	}
+	// recv.CloneX(): a helper that only copies the outer container (maps.Clone / slices.Clone / returns recv.F) is marked
+	// "outer"; whether that is deep enough depends on the element type (decided by the caller of the translator)
+	if ce, ok := rhs.(*ast.CallExpr); ok {
+		if se, ok := ce.Fun.(*ast.SelectorExpr); ok {
+			if id, ok := se.X.(*ast.Ident); ok && id.Name == rv {
+				for _, g := range funcs[se.Sel.Name] {
+					if g.pkg == "meta" && g.decl.Body != nil && outerCopyOnly(g) {
+						return "outer"
+					}
+				}
+			}
+		}
+	}
 	return "deep"
+}
+
+// outerCopyOnly: the helper's result comes from maps.Clone / slices.Clone / a bare field, with no per-element copying
+func outerCopyOnly(g *fn) bool {
+	shallow := false
+	loops := false
+	ast.Inspect(g.decl.Body, func(n ast.Node) bool {
+		switch x := n.(type) {
+		case *ast.RangeStmt, *ast.ForStmt:
+			loops = true
+		case *ast.CallExpr:
+			if se, ok := x.Fun.(*ast.SelectorExpr); ok {
+				if id, ok := se.X.(*ast.Ident); ok && (id.Name == "maps" || id.Name == "slices") && (se.Sel.Name == "Clone" || se.Sel.Name == "Clip") {
+					shallow = true
+				}
+			}
+		case *ast.ReturnStmt:
+			for _, r := range x.Results {
+				if se, ok := r.(*ast.SelectorExpr); ok {
+					if id, ok := se.X.(*ast.Ident); ok && id.Name == g.rvar {
+						shallow = true
+					}
+				}
+			}
+		}
+		return true
+	})
+	return shallow && !loops
 }
 
 func sorted(m map[string]bool) []string {
@@ -541,7 +611,8 @@ func main() {
 	var q []*fn
 	for _, l := range funcs {
 		for _, g := range l {
-			if g.pkg == "tsmeta" && strings.HasPrefix(g.decl.Name.Name, "apply") {
+			n := g.decl.Name.Name
+			if g.pkg == "tsmeta" && (strings.HasPrefix(n, "apply") || (g.recv == "storeFSM" && (n == "Apply" || n == "ApplyBatch" || n == "Restore" || n == "Snapshot" || n == "executeCmd"))) {
 				reach[g] = true
 				q = append(q, g)
 			}
@@ -630,6 +701,81 @@ func main() {
 			return true
 		})
 	}
+	// ---- accesses to the declared-transient fields (names given on the command line) and configuration reads
+	tnames := map[string]bool{}
+	if len(os.Args) > 2 {
+		for _, n := range strings.Split(os.Args[2], ",") {
+			if n != "" {
+				tnames[n] = true
+			}
+		}
+	}
+	accSeen := map[string]bool{}
+	addAcc := func(list *[]Access, f, fnName, mode string) {
+		k := f + "|" + fnName + "|" + mode
+		if !accSeen[k] {
+			accSeen[k] = true
+			*list = append(*list, Access{Field: f, Func: fnName, Mode: mode})
+		}
+	}
+	for _, g := range rfns {
+		if g.decl.Body == nil {
+			continue
+		}
+		written := map[ast.Node]bool{}
+		ast.Inspect(g.decl.Body, func(n ast.Node) bool {
+			switch x := n.(type) {
+			case *ast.AssignStmt:
+				for _, l := range x.Lhs {
+					if se, ok := l.(*ast.SelectorExpr); ok && tnames[se.Sel.Name] {
+						written[se] = true
+						addAcc(&out.Access, se.Sel.Name, g.name, "write")
+					}
+				}
+			case *ast.IncDecStmt:
+				if se, ok := x.X.(*ast.SelectorExpr); ok && tnames[se.Sel.Name] {
+					written[se] = true
+					addAcc(&out.Access, se.Sel.Name, g.name, "write")
+				}
+			case *ast.KeyValueExpr:
+				if id, ok := x.Key.(*ast.Ident); ok && tnames[id.Name] {
+					addAcc(&out.Access, id.Name, g.name, "write")
+				}
+			}
+			return true
+		})
+		ast.Inspect(g.decl.Body, func(n ast.Node) bool {
+			se, ok := n.(*ast.SelectorExpr)
+			if !ok {
+				return true
+			}
+			if tnames[se.Sel.Name] && !written[se] {
+				addAcc(&out.Access, se.Sel.Name, g.name, "read")
+			}
+			if inner, ok := se.X.(*ast.SelectorExpr); ok && inner.Sel.Name == "config" {
+				addAcc(&out.ConfigReads, se.Sel.Name, g.name, "config")
+			}
+			if se.Sel.Name == "UseIncSyncData" || se.Sel.Name == "GetHaPolicy" || se.Sel.Name == "IsLogKeeper" {
+				addAcc(&out.ConfigReads, se.Sel.Name, g.name, "config")
+			}
+			return true
+		})
+		// package-level switches set from the configuration
+		ast.Inspect(g.decl.Body, func(n ast.Node) bool {
+			if id, ok := n.(*ast.Ident); ok && (id.Name == "SchemaCleanEn" || id.Name == "repDisPolicy") {
+				addAcc(&out.ConfigReads, id.Name, g.name, "config")
+			}
+			return true
+		})
+	}
+	sort.Slice(out.Access, func(i, j int) bool {
+		a, b := out.Access[i], out.Access[j]
+		return a.Field+a.Func+a.Mode < b.Field+b.Func+b.Mode
+	})
+	sort.Slice(out.ConfigReads, func(i, j int) bool {
+		a, b := out.ConfigReads[i], out.ConfigReads[j]
+		return a.Field+a.Func < b.Field+b.Func
+	})
 	enc := json.NewEncoder(os.Stdout)
 	enc.SetIndent("", " ")
 	_ = enc.Encode(out)
